@@ -529,3 +529,60 @@ pub fn arb_aux(span_us: u32, allow_close: bool) -> impl Strategy<Value = TimedOp
     };
     (0..span_us, op).prop_map(|(at_us, op)| TimedOp { at_us, op })
 }
+
+// ---------------------------------------------------------------------------------------------
+// Attacker at the link (C04/C15): acts on copies of genuine datagrams
+// ---------------------------------------------------------------------------------------------
+
+#[derive(Clone, Debug, Serialize, Deserialize, PartialEq)]
+pub enum TokenChoice {
+    /// the token the victim has registered for the CID it currently sends to
+    ExactCurrent,
+    /// a token issued by the same peer endpoint for some other CID value
+    OtherCid(u16),
+    /// the exact token with one bit flipped
+    NearMiss(u8),
+}
+
+#[derive(Clone, Debug, Serialize, Deserialize, PartialEq)]
+pub enum AttackKind {
+    /// deliver `times` extra copies, each `delay_us` later than the previous
+    Replay { times: u8 },
+    /// deliver an additional corrupted copy
+    Corrupt(Corruption),
+    /// deliver an additional copy whose last 16 bytes are replaced by a reset token
+    ResetSuffix(TokenChoice),
+    /// deliver an additional copy whose destination CID is replaced by that of another connection
+    /// between the same endpoints (if there is one)
+    SpliceCid,
+    /// deliver an additional copy from a different source address
+    FromOtherAddr { port_only: bool },
+}
+
+#[derive(Clone, Debug, Serialize, Deserialize, PartialEq)]
+pub struct Attack {
+    /// index (in global emission order) of the genuine datagram the attack copies
+    pub on: u16,
+    pub delay_us: u32,
+    pub kind: AttackKind,
+}
+
+pub fn arb_attack(max_on: u16, spoof_addr: bool) -> impl Strategy<Value = Attack> {
+    let base = prop_oneof![
+        4 => (1u8..4).prop_map(|times| AttackKind::Replay { times }),
+        4 => arb_corruption().prop_map(AttackKind::Corrupt),
+        2 => prop_oneof![
+            2 => Just(TokenChoice::ExactCurrent),
+            1 => any::<u16>().prop_map(TokenChoice::OtherCid),
+            1 => (0u8..128).prop_map(TokenChoice::NearMiss),
+        ]
+        .prop_map(AttackKind::ResetSuffix),
+        1 => Just(AttackKind::SpliceCid),
+    ];
+    let kind = if spoof_addr {
+        prop_oneof![6 => base, 2 => any::<bool>().prop_map(|port_only| AttackKind::FromOtherAddr { port_only })].boxed()
+    } else {
+        base.boxed()
+    };
+    (0..max_on, prop_oneof![Just(1u32), 1u32..50_000, 50_000u32..3_000_000], kind).prop_map(|(on, delay_us, kind)| Attack { on, delay_us, kind })
+}
